@@ -362,10 +362,12 @@ func (c *Ctx) runNodesLoop(fr *frame, l *loopInfo) {
 }
 
 func (c *Ctx) execBlock(fr *frame, b *ssa.BasicBlock, st *State) {
+	c.curExecFrame = fr
 	if traceBlocks {
 		fmt.Fprintf(os.Stderr, "  block %s#%d (%s) pcsize=%d\n", fr.fn.Name(), b.Index, b.Comment, termSize([]*Term{st.pc}))
 	}
 	for _, in := range b.Instrs {
+		c.curExecFrame = fr
 		if _, ok := in.(*ssa.Phi); ok {
 			continue
 		}
@@ -782,6 +784,23 @@ func (c *Ctx) execIndexAddr(st *State, x *ssa.IndexAddr) {
 	base := c.operand(st, x.X)
 	i := c.toIndex(c.operand(st, x.Index), x.Index.Type())
 	text := c.W.srcText(x.Pos(), "index")
+	if fr := c.curExecFrame; fr != nil && fr.fc != nil && len(fr.fc.IndexAsserts) > 0 && c.quiet == 0 {
+		if br := strings.LastIndex(text, "["); br > 0 {
+			baseText := text[:br]
+			for _, ia := range fr.fc.IndexAsserts {
+				if ia.Callee != baseText {
+					continue
+				}
+				env := c.specEnv(fr, st)
+				env.lookup = c.localLookup(fr, st, token.NoPos)
+				for name, v := range fr.entryVars {
+					env.vars[name] = v
+				}
+				env.vars["idx"] = intVal(types.Typ[types.Int], i)
+				c.oblige(st, "footprint", baseText+":"+ia.C.Text, x.Pos(), c.evalClause(env, ia.C))
+			}
+		}
+	}
 	switch u := x.X.Type().Underlying().(type) {
 	case *types.Slice:
 		l := base.leaves()
